@@ -7,6 +7,7 @@ import (
 	"math"
 	"reflect"
 	"sort"
+	"sync"
 
 	"github.com/bmeg/grip/engine/logic"
 	"github.com/bmeg/grip/gdbi"
@@ -924,23 +925,36 @@ func (b both) Process(ctx context.Context, man gdbi.Manager, in gdbi.InPipe, out
 		for i, p := range procs {
 			p.Process(ctx, man, chanIn[i], chanOut[i])
 		}
-		for t := range in {
-			if t.IsSignal() {
-				out <- t
-				continue
+		//feed the sub-steps while their outputs are being drained: their
+		//buffers are bounded, so feeding everything first blocks for ever
+		//once the input exceeds them
+		wg := &sync.WaitGroup{}
+		wg.Add(1)
+		go func() {
+			defer wg.Done()
+			for t := range in {
+				if t.IsSignal() {
+					out <- t
+					continue
+				}
+				for _, ch := range chanIn {
+					ch <- t
+				}
 			}
 			for _, ch := range chanIn {
-				ch <- t
+				close(ch)
 			}
-		}
-		for _, ch := range chanIn {
-			close(ch)
-		}
+		}()
 		for i := range procs {
-			for c := range chanOut[i] {
-				out <- c
-			}
+			wg.Add(1)
+			go func(res chan gdbi.Traveler) {
+				defer wg.Done()
+				for c := range res {
+					out <- c
+				}
+			}(chanOut[i])
 		}
+		wg.Wait()
 	}()
 	return ctx
 }
